@@ -51,7 +51,11 @@ class Deps:
             for r in ast.walk(node):
                 if isinstance(r, ast.Return) and r.value is not None and _is_notation_call(r.value):
                     env = {a.arg: set() for a in node.args.args}
-                    res = self.deps(r.value.args[2] if len(r.value.args) > 2 else _kw(r.value, 'definition'), mod, env)
+                    dfn = r.value.args[2] if len(r.value.args) > 2 else _kw(r.value, 'definition')
+                    if isinstance(dfn, ast.Name) and dfn.id not in env:
+                        from .c16 import inline_locals
+                        dfn = inline_locals(node.body, dfn, set(env))
+                    res = self.deps(dfn, mod, env)
         elif _is_notation_call(node):
             res = self.deps(node.args[2] if len(node.args) > 2 else _kw(node, 'definition'), mod, {})
         self.memo[key] = res
@@ -179,30 +183,71 @@ def enclosing_fn(tree, node):
     return best
 
 
+def _range_key(e):
+    """`range(n)` / `range(0, n)` -> ('0', 'n'); None if not a plain range"""
+    if isinstance(e, ast.Call) and isinstance(e.func, ast.Name) and e.func.id == 'range' and not e.keywords and 1 <= len(e.args) <= 2:
+        return ('0', ast.unparse(e.args[0])) if len(e.args) == 1 else (ast.unparse(e.args[0]), ast.unparse(e.args[1]))
+    return None
+
+
+def _is_placeholder_of(e, i: str) -> bool:
+    """the expression spells the placeholder `{<i>}`: '{' + str(i) + '}'  or  f'{{{i}}}'"""
+    txt = ast.unparse(e)
+    if isinstance(e, ast.JoinedStr):
+        return '{{' in txt and any(isinstance(v, ast.FormattedValue) and ast.unparse(v.value) == i for v in e.values)
+    return f'str({i})' in txt and "'{'" in txt and "'}'" in txt
+
+
 def loop_coupled(fn: ast.FunctionDef, call: ast.Call) -> tuple[bool, str]:
-    """definition and format are built in one loop: the iteration that adds MetaVar(i) also appends the placeholder for i,
-    and every format joins all of them"""
-    loops = [n for n in ast.walk(fn) if isinstance(n, ast.For) and isinstance(n.target, ast.Name)]
-    for lp in loops:
-        i = lp.target.id
-        adds_mv = any(isinstance(x, ast.Call) and ast.unparse(x.func) == 'MetaVar' and x.args and ast.unparse(x.args[0]) == i for x in ast.walk(lp))
-        appends = [x for x in ast.walk(lp) if isinstance(x, ast.Call) and isinstance(x.func, ast.Attribute) and x.func.attr == 'append']
-        ph = None
-        for a in appends:
-            txt = ast.unparse(a.args[0]) if a.args else ''
-            if f'str({i})' in txt and "'{'" in txt and "'}'" in txt:
-                ph = ast.unparse(a.func.value)
-            if isinstance(a.args[0], ast.JoinedStr) and '{{' in txt and i in txt:
-                ph = ast.unparse(a.func.value)
-        if adds_mv and ph:
-            fmt_arg = call.args[3] if len(call.args) > 3 else _kw(call, 'format_str')
-            if isinstance(fmt_arg, ast.Name):
-                defs = [n.value for n in ast.walk(fn) if isinstance(n, ast.Assign) and isinstance(n.targets[0], ast.Name) and n.targets[0].id == fmt_arg.id]
-                if defs and all(f'.join({ph})' in ast.unparse(d) for d in defs):
-                    return True, ''
-                return False, f'a format of the notation does not join all placeholders collected in `{ph}`'
-            return False, 'the format argument is not the string built from the collected placeholders'
-    return False, 'no loop couples MetaVar(i) with a placeholder for i'
+    """definition and format are built over the same index range: MetaVar(i) is constructed for every i of a range (a loop, a
+    comprehension or map(MetaVar, range(..))), the placeholders `{i}` are collected over the same range, and every format joins
+    all of them"""
+    mv_ranges = set()
+    ph = {}                      # name of the placeholder list (or source text of the comprehension) -> range
+    for n in ast.walk(fn):
+        if isinstance(n, ast.For) and isinstance(n.target, ast.Name) and _range_key(n.iter):
+            i = n.target.id
+            if any(isinstance(x, ast.Call) and ast.unparse(x.func) == 'MetaVar' and x.args and ast.unparse(x.args[0]) == i for x in ast.walk(n)):
+                mv_ranges.add(_range_key(n.iter))
+            for x in ast.walk(n):
+                if isinstance(x, ast.Call) and isinstance(x.func, ast.Attribute) and x.func.attr == 'append' and x.args and _is_placeholder_of(x.args[0], i):
+                    ph[ast.unparse(x.func.value)] = _range_key(n.iter)
+        elif isinstance(n, (ast.ListComp, ast.GeneratorExp)) and len(n.generators) == 1 and not n.generators[0].ifs \
+                and isinstance(n.generators[0].target, ast.Name) and _range_key(n.generators[0].iter):
+            i = n.generators[0].target.id
+            if isinstance(n.elt, ast.Call) and ast.unparse(n.elt.func) == 'MetaVar' and n.elt.args and ast.unparse(n.elt.args[0]) == i:
+                mv_ranges.add(_range_key(n.generators[0].iter))
+            if _is_placeholder_of(n.elt, i):
+                ph[ast.unparse(n)] = _range_key(n.generators[0].iter)
+        elif isinstance(n, ast.Call) and isinstance(n.func, ast.Name) and n.func.id == 'map' and len(n.args) == 2 \
+                and ast.unparse(n.args[0]) == 'MetaVar' and _range_key(n.args[1]):
+            mv_ranges.add(_range_key(n.args[1]))
+    # a comprehension assigned to a local is known under that name too
+    for n in ast.walk(fn):
+        if isinstance(n, (ast.Assign, ast.AnnAssign)) and n.value is not None and ast.unparse(n.value) in ph:
+            tgt = n.targets[0] if isinstance(n, ast.Assign) else n.target
+            if isinstance(tgt, ast.Name):
+                ph[tgt.id] = ph[ast.unparse(n.value)]
+    if not mv_ranges or not ph:
+        return False, 'no loop couples MetaVar(i) with a placeholder for i'
+    if len(mv_ranges) != 1:
+        return False, 'the definition uses metavariables over several index ranges'
+    rng = next(iter(mv_ranges))
+    lists = [k for k, r in ph.items() if r == rng]
+    if not lists:
+        return False, f'the placeholders are collected over {sorted(set(ph.values()))}, the metavariables over range{rng}'
+    fmt_arg = call.args[3] if len(call.args) > 3 else _kw(call, 'format_str')
+    if not isinstance(fmt_arg, ast.Name):
+        return False, 'the format argument is not the string built from the collected placeholders'
+    defs = [n.value for n in ast.walk(fn) if isinstance(n, (ast.Assign, ast.AnnAssign)) and n.value is not None
+            and isinstance(n.targets[0] if isinstance(n, ast.Assign) else n.target, ast.Name)
+            and (n.targets[0] if isinstance(n, ast.Assign) else n.target).id == fmt_arg.id]
+    arms = []
+    for d in defs:
+        arms += [d.body, d.orelse] if isinstance(d, ast.IfExp) else [d]
+    if arms and all(any(f'.join({k})' in ast.unparse(d) for k in lists) for d in arms):
+        return True, ''
+    return False, f'a format of the notation does not join all placeholders collected in `{lists[0]}`'
 
 
 def notation_formats(ctx, py: PyRepo):
@@ -220,6 +265,15 @@ def notation_formats(ctx, py: PyRepo):
         tag = f'{mname}:{lab}'
         n += 1
         env = {a.arg: set() for a in fn.args.args} if fn is not None else {}
+        if fn is not None:
+            # locals that only name the definition / the format / the label
+            from .c16 import inline_locals
+            keep = {a.arg for a in fn.args.args}
+            definition, fmt = (inline_locals(fn.body, x, keep) if isinstance(x, ast.Name) else x for x in (definition, fmt))
+            if isinstance(label, ast.Name):
+                label = inline_locals(fn.body, label, keep)
+                lab = (static_format(label) or ast.unparse(label)).replace('¤', '*')
+                tag = f'{mname}:{lab}'
         sf = static_format(fmt) if fmt is not None else None
         if sf is None or (fn is not None and isinstance(definition, ast.Name)):
             if fn is None:
@@ -248,12 +302,20 @@ def one_line_per_instruction(ctx, py: PyRepo):
     # the decorator writes exactly one newline after the step text, and returns the super result
     deco = pp.methods.get('pretty')
     ctx.require(deco is not None, 'anchor vanished: PrettyPrintingInterpreter.pretty')
-    wr = [n for n in ast.walk(deco) if isinstance(n, ast.FunctionDef) and n.name == 'wrapper']
-    ctx.require(len(wr) == 1, 'PrettyPrintingInterpreter.pretty: wrapper not found')
-    newlines = [n for n in ast.walk(wr[0]) if isinstance(n, ast.Call) and ast.unparse(n.func) == 'self.out.write'
-                and n.args and isinstance(n.args[0], ast.Constant) and n.args[0].value == '\n']
-    calls_func = [n for n in ast.walk(wr[0]) if isinstance(n, ast.Call) and isinstance(n.func, ast.Name) and n.func.id == 'func']
-    ctx.ob('one-line-per-step', 'decorator', len(newlines) == 1 and len(calls_func) == 1,
+    from .c07 import pretty_wrapper
+    facts = pretty_wrapper(py)
+    ctx.require(facts is not None, 'PrettyPrintingInterpreter.pretty: wrapper not found')
+    _wrp, wpaths, SELF, rest, kw, func = facts
+    step = ('call', ('name', func), (SELF,) + rest, kw)
+    nl = ('call', ('attr', ('attr', SELF, 'out'), 'write'), (('const', '\n'),), ())
+    rets = [p for p in wpaths if p.end[0] == 'return']
+    ok_deco = bool(rets)
+    for p in rets:
+        seq = [e.value for e in p.events if e.kind == 'ecall' and (e.value == step or (e.value[0] == 'call' and e.value[1] == nl[1]))]
+        # the step text once, then exactly one newline, nothing else written to the listing by the wrapper itself
+        if seq != [step, nl]:
+            ok_deco = False
+    ctx.ob('one-line-per-step', 'decorator', ok_deco,
            'the @pretty wrapper must print the step text once and terminate it with exactly one newline', py.where(pp.module, deco))
     for meth in PM.INTERP_METHODS:
         in_pp, in_ser = meth in pp.methods, meth in ser.methods
@@ -299,7 +361,8 @@ def renderer_transparent(ctx, py: PyRepo):
     ctx.require(len(names) == 3, 'Notation.print_instantiation: signature changed')
     SELF, APPLIED, OPTS = (('param', n) for n in names)
     n = 0
-    for p in PyEval().paths(fn):
+    from ..core.pyfacts import self_method_resolver
+    for p in PyEval(resolver=self_method_resolver(py, py.cls('Notation', 'pattern'), SELF)).paths(fn):
         if p.end[0] != 'return':
             continue
         n += 1
@@ -358,25 +421,18 @@ def argument_order(ctx, py: PyRepo):
             # delegating to the expansion yields no notation node: nothing to render positionally
             ctx.ob('argument-order', f'Instantiate.instantiate/path{n}', 'simplify' in repr(v), f'result {show(v)[:80]} is not understood', where)
             continue
+        from ..core.mapparts import map_parts
         m = _strip_fd(v[2][1])
-        parts = []
-        if m[0] == 'dict':
-            parts = [_strip_fd(val) for k, val in m[1] if k == ('const', '**')]
-            if len(parts) != len(m[1]):
-                parts = []
-        elif m[0] == 'binop' and m[1] == 'BitOr':
-            parts = [_strip_fd(m[2]), _strip_fd(m[3])]
-        else:
-            parts = [m]
+        parts = map_parts(p, m) or []
         first = parts[0] if parts else None
         stored_items = ('call', ('attr', ('attr', SELF, 'inst'), 'items'), (), ())
-        first_ok = first is not None and first[0] == 'comp' and first[1] == 'dictcomp' and len(first[3]) == 1 \
-            and first[3][0][1] == stored_items and not first[3][0][2] and first[2][0] == 'pair' \
-            and first[2][1] == ('bound', first[3][0][0].strip('()').split(',')[0].strip())
+        # the first component enumerates ALL stored entries under their own keys, in stored order (no filter, nothing skipped)
+        first_ok = first is not None and first.source == stored_items and len(first.alts) == 1 and not first.skips \
+            and not first.alts[0][0] and first.alts[0][1] == ('item', ('elem', stored_items), 0)
         ctx.ob('argument-order', f'Instantiate.instantiate/path{n}', bool(first_ok),
                'Instantiate.instantiate must rebuild the argument map starting with ALL stored entries in stored order (a dict keeps '
                'insertion order and the renderer fills `{0}`, `{1}`, .. from `inst.values()` positionally); here the first component is '
-               f'`{show(first)[:110] if first else show(m)[:110]}`: entries that come later change position and are printed in the wrong hole',
+               f'`{(show(first.raw)[:110] if first.raw else "a loop over " + show(first.source)[:80]) if first else show(m)[:110]}`: entries that come later change position and are printed in the wrong hole',
                where)
     ctx.floor('argument-order', 2)
 
@@ -397,22 +453,33 @@ def transformers_treat_outputs_alike(ctx, py: PyRepo):
     anc_ser = {c.name for c in py.mro(ser)}
     anc_pp = {c.name for c in py.mro(pp)}
     base = py.cls('InterpreterTransformer')
+    from .c16 import inline_locals
+
+    def class_tests(fn):
+        """isinstance tests whose subject is the wrapped interpreter, directly or through a local that names it"""
+        keep = {a.arg for a in fn.args.args}
+        for node in ast.walk(fn):
+            if isinstance(node, ast.Call) and isinstance(node.func, ast.Name) and node.func.id == 'isinstance' and len(node.args) == 2:
+                subj = ast.unparse(inline_locals(fn.body, node.args[0], keep))
+                if 'sub_interpreter' in subj:
+                    yield [ast.unparse(e) for e in (node.args[1].elts if isinstance(node.args[1], ast.Tuple) else [node.args[1]])], node
+    # the rule may legitimately match nothing; a built-in positive example keeps it from passing vacuously
+    example = ast.parse('def m(self, p):\n    sub = self.sub_interpreter\n    if isinstance(sub, SerializingInterpreter):\n        return p\n').body[0]
+    ctx.require([names for names, _n in class_tests(example)] == [['SerializingInterpreter']],
+                'outputs-treated-alike: the class-test detector no longer recognises its own positive example')
     n = 0
     for ci in [base] + py.subclasses(base):
         for mname, fn in ci.methods.items():
-            for node in ast.walk(fn):
-                if isinstance(node, ast.Call) and isinstance(node.func, ast.Name) and node.func.id == 'isinstance' and len(node.args) == 2 \
-                        and 'sub_interpreter' in ast.unparse(node.args[0]):
-                    names = [ast.unparse(e) for e in (node.args[1].elts if isinstance(node.args[1], ast.Tuple) else [node.args[1]])]
-                    n += 1
-                    s_in = any(x in anc_ser for x in names)
-                    p_in = any(x in anc_pp for x in names)
-                    ctx.ob('outputs-treated-alike', f'{ci.name}.{mname}:{"|".join(names)}', s_in == p_in,
-                           f'{ci.name}.{mname} tests the wrapped interpreter for {names}: the test is {s_in} for the binary serializer and '
-                           f'{p_in} for the pretty printer, so the two files of one module list different steps '
-                           f'(e.g. Load in one where the other rebuilds the pattern)', py.where(ci.module, node))
+            for names, node in class_tests(fn):
+                n += 1
+                s_in = any(x in anc_ser for x in names)
+                p_in = any(x in anc_pp for x in names)
+                ctx.ob('outputs-treated-alike', f'{ci.name}.{mname}:{"|".join(names)}', s_in == p_in,
+                       f'{ci.name}.{mname} tests the wrapped interpreter for {names}: the test is {s_in} for the binary serializer and '
+                       f'{p_in} for the pretty printer, so the two files of one module list different steps '
+                       f'(e.g. Load in one where the other rebuilds the pattern)', py.where(ci.module, node))
     ctx.analysed['class tests on the wrapped interpreter'] = n
-    ctx.floor('outputs-treated-alike', 1)
+    ctx.ob('outputs-treated-alike', 'scan', True, f'{n} class tests on the wrapped interpreter examined (detector self-checked on a positive example)', '')
 
 
 def run(ctx):
